@@ -163,7 +163,38 @@ def _extra_threads(baseline, want):
     return n
 
 
+_port_shared = [False]
+
+
+def _udp_port_shared(port):
+    """more than one UDP socket on this port: TftpServer sets SO_REUSEADDR, so the TFTP server of ANOTHER check
+    running at the same time may have bound the same port between our probe and our bind"""
+    n = 0
+    for fn in ("/proc/net/udp6", "/proc/net/udp"):
+        try:
+            with open(fn) as f:
+                for ln in f.readlines()[1:]:
+                    parts = ln.split()
+                    if len(parts) > 1 and parts[1].rsplit(":", 1)[-1].lower() == "%04x" % port:
+                        n += 1
+        except OSError:
+            pass
+    return n > 1
+
+
 def run_history(kind, h, hold=1.5):
+    """a history on a port of its own; run again on another port if, after one of its starts, the UDP port turned
+    out to be shared with a foreign socket (requests would go astray between the two processes)"""
+    obs = None
+    for _ in range(4):
+        _port_shared[0] = False
+        obs = _run_history(kind, h, hold)
+        if not _port_shared[0]:
+            break
+    return obs
+
+
+def _run_history(kind, h, hold=1.5):
     """returns the per-operation observations [raised, port bound, live server threads, request outcome, hang]"""
     baseline = set(threading.enumerate())
     port = _free_port(kind)
@@ -209,6 +240,8 @@ def run_history(kind, h, hold=1.5):
                     raised = 1
                 else:
                     expect_running = 1 if o == START else 0
+                    if o == START and kind == "tftp" and _udp_port_shared(port):
+                        _port_shared[0] = True
             elif o == STOP_OPEN_CONN:
                 # stop() while a client holds an open, idle connection (HTTP: TCP connection without a request line;
                 # TFTP has no connections: a plain stop()): stop() must return within its deadline all the same
@@ -385,16 +418,13 @@ def run_history(kind, h, hold=1.5):
             t.join(2.0)
         except Exception:
             pass
-        s = getattr(srv, "_socket", None)
-        if s is not None:
+        # whatever the object still holds, found by type (no private names)
+        for v in list(vars(srv).values()):
             try:
-                s.close()
-            except Exception:
-                pass
-        hs = getattr(srv, "_server", None)
-        if hs is not None:
-            try:
-                hs.server_close()
+                if isinstance(v, real_socket.socket):
+                    v.close()
+                elif isinstance(v, socketserver.BaseServer):
+                    v.server_close()
             except Exception:
                 pass
     return obs
@@ -493,9 +523,39 @@ class _Patch:
 
 
 TFTP_FILES = [S.__file__]
-TFTP_FUNCS = ["start", "stop", "_run"]
+TFTP_FUNCS = sched.with_fallback(["start", "stop", "_run"], [(S.__file__, ["start", "stop", "_run"])])
 HTTP_FILES = [H.__file__, socketserver.__file__]
-HTTP_FUNCS = ["start", "stop", "_run", "serve_forever", "shutdown", "server_close"]
+HTTP_FUNCS = sched.with_fallback(["start", "stop", "_run", "serve_forever", "shutdown", "server_close"],
+                                 [(H.__file__, ["start", "stop", "_run"])])
+
+
+def _server_class(mod):
+    """(name, class) of the socketserver class the HTTP server module defines - found by type, not by name"""
+    hits = [(k, v) for k, v in vars(mod).items() if isinstance(v, type) and issubclass(v, socketserver.BaseServer)
+            and v.__module__ == mod.__name__]
+    if not hits:
+        raise LookupError("no socketserver.BaseServer subclass defined in %s" % mod.__name__)
+    return hits[0]
+
+
+def _request_class(mod):
+    """the class of one TFTP read transfer: by its name if it still has it, else the class of the module whose
+    constructor takes the ten or more values a transfer needs"""
+    c = getattr(mod, "_TftpReadRequest", None)
+    if c is not None:
+        return c
+    import inspect
+    hits = []
+    for v in vars(mod).values():
+        if isinstance(v, type) and v.__module__ == mod.__name__ and not issubclass(v, BaseException):
+            try:
+                if len(inspect.signature(v.__init__).parameters) >= 11:
+                    hits.append(v)
+            except (TypeError, ValueError):
+                pass
+    if len(hits) != 1:
+        raise LookupError("transfer class of %s not found" % mod.__name__)
+    return hits[0]
 
 
 class ConcScenario:
@@ -519,13 +579,13 @@ class ConcScenario:
             self.patch.set(socketserver, "threading", sh)
             self.patch.set(socketserver, "_ServerSelector", _FakeSelector)
             servers = self.servers
-            base = H._ThreadingHTTPServer
+            base_name, base = _server_class(H)
 
             class Recording(base):
                 def __init__(self, *a, **k):
                     super().__init__(*a, **k)
                     servers.append(self)
-            self.patch.set(H, "_ThreadingHTTPServer", Recording)
+            self.patch.set(H, base_name, Recording)
             self.srv = H.HttpServer([_HttpHandler()], "::1", 0)
         self.pre = pre
         self.bodies = [self._body(i, l) for i, l in enumerate(ops)]
@@ -778,7 +838,7 @@ def run_xfer(c):
     ended = 1
     before = set(threading.enumerate())
     try:
-        r = S._TftpReadRequest("f", P.TransferMode.OCTET, options, fake_net.CLI, fake_net.SRV, handler, None,
+        r = _request_class(S)("f", P.TransferMode.OCTET, options, fake_net.CLI, fake_net.SRV, handler, None,
                                2, 30, 1, 65464, None if x == "overflow" else 0)
         th = getattr(r, "_thread", None)
         ths = [th] if th is not None else [t_ for t_ in threading.enumerate() if t_ not in before]
